@@ -1,4 +1,5 @@
 import GixModel.Basic.CommitDag
+import GixModel.Spec.C47
 /-
 C47 — models of the commit walks of gix-traverse:
 
@@ -589,6 +590,23 @@ def handle? : List String → Option String
         | "topo-date-fp", none => topo .dateOrder true
         | "topo-topo-fp", none => topo .topoOrder true
         | _, _ => none
+    | _ => none
+  | "gitorder" :: _cg :: mode :: n :: rest => do
+    -- not a model of gitoxide code: `Spec.C47.gitTopoOrder`, the transcription of git's sort,
+    -- whose expected output is what the git binary printed
+    let n ← n.toNat?
+    let (rows, rest) ← takeRows n rest
+    match rest with
+    | [tips, hidden, _cut] =>
+      let tips ← parseIdxList tips
+      let hidden ← parseIdxList hidden
+      if tips.any (· ≥ n) || hidden.any (· ≥ n) then none
+      else
+        let g := dagOfRows rows.toArray
+        match mode with
+        | "topo-date" => some (showSeq (.ok (Spec.C47.gitTopoOrder g n tips hidden true)))
+        | "topo-topo" => some (showSeq (.ok (Spec.C47.gitTopoOrder g n tips hidden false)))
+        | _ => none
     | _ => none
   | _ => none
 
